@@ -13,16 +13,18 @@ import sys
 from trie.exceptions import TraversedPartialPath
 
 from vt.core import Raised, Violation, cut, run_case_guarded, shrink_list
+from vt.engines import hexary_history as hh
 from vt.engines import hexary_static as hs
-from vt.ref.mpt import annot
+from vt.ref.mpt import RefTrie, annot
 
 ID = "C08"
 LEVEL = "exploration"
 RULE = (
     "case = one trie (built by a short history, prune on/off) x the nibble paths aimed at it: every "
     "prefix of every stored key, each extended by 1-2 nibbles, divergences at every position, all "
-    "nibble strings up to a length bound, and traverse_from from every node met by a full walk; "
-    "evaluations = tries; distinct = distinct canonical shapes traversed; non-trivial = >= 2 keys"
+    "nibble strings up to a length bound, and traverse_from from every node met by a full walk; plus "
+    "generated histories (batches, aborts, root_hash reassignment) with root_node / traverse / "
+    "traverse_from judged after every operation while the root moves; evaluations = tries + histories; distinct = distinct canonical shapes traversed; non-trivial = >= 2 keys"
 )
 ASSUMPTIONS = ["reference trie vt/ref/mpt.py locate(); a path ending exactly at the end of a leaf's suffix "
                "counts as ending inside the leaf (TraversedPartialPath with an empty simulated suffix), as the code documents"]
@@ -33,10 +35,12 @@ EXHAUSTIVE = {
 FLOORS = {
     "quick": {"paths": 150000, "res_blank": 100000, "res_node": 1000, "res_partial_leaf": 4000,
               "res_partial_ext": 600, "traverse_from": 50000, "read_bound_checks": 50000,
-              "simulated_ext_followed": 600},
+              "simulated_ext_followed": 600, "moving_root_node_checks": 5000, "moving_after_batch": 500,
+              "moving_in_batch": 500, "moving_root_reassigned": 300, "moving_traverse_from": 5000},
     "thorough": {"paths": 1500000, "res_blank": 1000000, "res_node": 10000, "res_partial_leaf": 40000,
                  "res_partial_ext": 6000, "traverse_from": 500000, "read_bound_checks": 500000,
-                 "simulated_ext_followed": 6000},
+                 "simulated_ext_followed": 6000, "moving_root_node_checks": 50000, "moving_after_batch": 5000,
+                 "moving_in_batch": 5000, "moving_root_reassigned": 3000, "moving_traverse_from": 50000},
 }
 
 
@@ -69,6 +73,8 @@ def hops_below(ref, q, full):
 
 
 def run_case(case, ctx):
+    if case.get("engine") == "hh":
+        return run_moving(case, ctx)
     t, db, model, ref = hs.build(case)
     rnd = random.Random(case.get("pseed", 0))
     alts = case.get("alts", 2)
@@ -139,8 +145,78 @@ def run_case(case, ctx):
         ctx.count("feat_" + f)
 
 
+# ------------------------------------------------------------------ moving roots
+class MovingRootRunner(hh.Runner):
+    """The same judgements while the root MOVES: after every operation of a generated history
+    (plain set / delete, inside an open squash_changes block, after its commit or abort) and
+    after pointing a non-pruning trie at one of its earlier roots by assigning root_hash,
+    root_node, traverse(()) and the canonical root must agree, traverse_from(root_node, seg)
+    must equal traverse(seg), and a sample of content-aimed paths must be described as the
+    reference describes them.  root_node is therefore always read BEFORE the next change too."""
+
+    def __init__(self, case, ctx):
+        super().__init__(case, ctx)
+        self.roots = []
+
+    def observe(self, trie, model, where):
+        ref = RefTrie(model)
+        rn = cut(lambda: trie.root_node)
+        tv = cut(trie.traverse, ())
+        if hs.pub(rn) != hs.pub(tv) or hs.pub(rn) != annot(ref.tree):
+            raise Violation("traverse-root-node", "%sroot_node %r, traverse(()) %r, canonical root %r" % (
+                where, hs.pub(rn), hs.pub(tv), annot(ref.tree)))
+        self.ctx.count("moving_root_node_checks")
+        for seg in rn.sub_segments:
+            seg = tuple(int(x) for x in seg)
+            a = describe(cut(trie.traverse_from, rn, seg, expect=(TraversedPartialPath,)))
+            b = describe(cut(trie.traverse, seg, expect=(TraversedPartialPath,)))
+            exp = expected(ref, seg)
+            if a != b or b != exp:
+                raise Violation("traverse-from", "%straverse_from(root_node, %r) = %r, traverse = %r, canonical trie says %r" % (
+                    where, seg, a, b, exp))
+            self.ctx.count("moving_traverse_from")
+        paths = hs.key_paths(self.rnd, ref, 1)
+        if len(paths) > 10:
+            paths = self.rnd.sample(paths, 10)
+        for p in paths:
+            got = describe(cut(trie.traverse, p, expect=(TraversedPartialPath,)))
+            exp = expected(ref, p)
+            if got != exp:
+                raise Violation("traverse-" + exp[0], "%straverse(%r) gave %r, canonical trie says %r" % (where, p, got, exp))
+            self.ctx.count("moving_paths")
+
+    def after_op(self, op):
+        self.observe(self.trie, self.model, "after %s: " % op[0])
+        if op[0] == "batch":
+            self.ctx.count("moving_after_batch")
+        if not self.prune:
+            self.roots.append((self.trie.root_hash, dict(self.model)))
+            if len(self.roots) > 1 and self.rnd.random() < 0.3:
+                # point the trie at an earlier root (public attribute), look, and come back
+                old_root, old_model = self.rnd.choice(self.roots[:-1])
+                cur = self.trie.root_hash
+                self.trie.root_hash = old_root
+                self.observe(self.trie, old_model, "after assigning an earlier root to root_hash: ")
+                self.trie.root_hash = cur
+                self.observe(self.trie, self.model, "after assigning the latest root back to root_hash: ")
+                self.ctx.count("moving_root_reassigned")
+        if len(self.model) >= 2:
+            self.ctx.shape(("moving", RefTrie(self.model).shape(), self.prune))
+
+    def after_batch_op(self, btrie, bmodel, op):
+        self.observe(btrie, bmodel, "batch trie inside an open squash_changes block: ")
+        self.observe(self.trie, self.model, "outer trie while a batch is open: ")
+        self.ctx.count("moving_in_batch")
+
+
+def run_moving(case, ctx):
+    MovingRootRunner(case, ctx).run()
+    ctx.evaluated()
+
+
 def shrink(case, monitor):
-    return shrink_list(sys.modules[__name__], case, monitor, field="hist")
+    field = "ops" if case.get("engine") == "hh" else "hist"
+    return shrink_list(sys.modules[__name__], case, monitor, field=field)
 
 
 def run_shard(ctx):
@@ -154,6 +230,14 @@ def run_shard(ctx):
         base = 2 if ctx.tier == "quick" else 3
         case["allpaths"] = base + (1 if i % 8 == 0 else 0)
         if i == 1:
+            ctx.sample(case)
+        run_case_guarded(mod, case, ctx)
+        if ctx.full:
+            return
+    # the same judgements while the root moves (histories with batches, aborts, root reassignment)
+    for i in range(60 if ctx.tier == "quick" else 600):
+        case = hh.gen_history(rnd, rnd.randint(2, 16 if ctx.tier == "quick" else 40), batch_p=0.3)
+        if i == 0:
             ctx.sample(case)
         run_case_guarded(mod, case, ctx)
         if ctx.full:
